@@ -408,6 +408,11 @@ func (x *Ctx) hintsCapacityOnly(r *core.Result, rs *core.RuleStat, st *types.Str
 						fail("a slice bound")
 					}
 				case *ssa.Return:
+					// a private single-result helper that computes the hint (sliceSizeHint()) hands it to its callers,
+					// where the flow is followed further
+					if x.isPrivateHelper(fn) && fn.Signature.Results().Len() == 1 {
+						continue
+					}
 					for _, res := range v.Results {
 						if t.Tainted[res] {
 							fail("a returned value")
@@ -464,7 +469,17 @@ func (x *Ctx) hintsCapacityOnly(r *core.Result, rs *core.RuleStat, st *types.Str
 						what := ""
 						switch v := ins.(type) {
 						case *ssa.Return:
-							what = "a return"
+							// a helper that computes the hint returns one hint value or another: still only a choice
+							// between hint values
+							hintOnly := x.isPrivateHelper(fn) && fn.Signature.Results().Len() == 1
+							for _, res := range v.Results {
+								if _, isC := res.(*ssa.Const); !isC && !t.Tainted[res] {
+									hintOnly = false
+								}
+							}
+							if !hintOnly {
+								what = "a return"
+							}
 						case *ssa.Panic:
 							what = "a panic"
 						case *ssa.MapUpdate, *ssa.Send, *ssa.Go, *ssa.Defer:
